@@ -18,12 +18,44 @@ def _is_self_buffer(b, op):
 
 
 def _empty_test(b, bb):
-    """switch at bb on (possibly negated) self.buffer.is_empty(): returns {succ: is_empty_value}"""
+    """switch at bb on a test whether self.buffer is empty (`is_empty()`, `len() == 0`, `len() > 0`,
+    possibly negated): returns {succ: buffer_is_empty}"""
     t = b.term(bb)
     if t[0] != "switch" or len(t) < 5 or t[4] != "bool":
         return None
     l = op_local(t[1])
     neg = False
+
+    def _res():
+        res = {}
+        for v, tb in t[2]:
+            val = bool(int(v))
+            res[tb] = (not val) if neg else val
+        other = not any(bool(int(v)) for v, _tb in t[2])  # value of the otherwise arm
+        res.setdefault(t[3], (not other) if neg else other)
+        return res
+
+    def _is_len(op):
+        ll = op_local(op)
+        if ll is None:
+            return False
+        for _ in range(4):
+            ds_ = b.defs.get(ll, [])
+            if len(ds_) != 1:
+                return False
+            _b, idx_, rv_ = ds_[0]
+            if idx_ == "call":
+                return rv_.d.split("::")[-1] == "len" and rv_.args and _is_self_buffer(b, rv_.args[0])
+            if rv_[0] == "use" and rv_[1][0] != "k":
+                ll = op_local(rv_[1])
+                if ll is None:
+                    return False
+            else:
+                return False
+        return False
+
+    def _zero(op):
+        return op[0] == "k" and str(op[2]) in ("0", "0_usize")
     for _ in range(6):
         if l is None:
             return None
@@ -34,19 +66,26 @@ def _empty_test(b, bb):
         if idx == "call":
             c = rv
             if c.d.split("::")[-1] == "is_empty" and c.args and _is_self_buffer(b, c.args[0]):
-                res = {}
-                for v, tb in t[2]:
-                    val = bool(int(v))
-                    res[tb] = (not val) if neg else val
-                other = not any(bool(int(v)) for v, _tb in t[2])  # value of the otherwise arm
-                res.setdefault(t[3], (not other) if neg else other)
-                return res
+                return _res()
             return None
         if rv[0] == "un" and rv[1] == "Not":
             neg = not neg
             l = op_local(rv[2])
         elif rv[0] == "use":
             l = op_local(rv[1])
+        elif rv[0] == "bin" and rv[1] in ("Eq", "Ne", "Gt", "Lt", "Le", "Ge"):
+            a_, b2 = rv[2], rv[3]
+            if _is_len(a_) and _zero(b2):
+                empty_when_true = {"Eq": True, "Le": True, "Ne": False, "Gt": False}.get(rv[1])
+            elif _zero(a_) and _is_len(b2):
+                empty_when_true = {"Eq": True, "Ge": True, "Ne": False, "Lt": False}.get(rv[1])
+            else:
+                return None
+            if empty_when_true is None:
+                return None
+            if not empty_when_true:
+                neg = not neg
+            return _res()
         else:
             return None
     return None
